@@ -30,9 +30,7 @@ theorem DLog.src (s : Nat) (cl : Client) : ∀ a ∈ srcActs s, ∀ st, a.guard 
   -- src.wmap.ok
   case inr.inr.inr.inr.inr.inr.inr.inr.inl =>
     obtain ⟨b, hb⟩ := (isWok_iff _).mp hg.2
-    have hp : (cv st.sinkCh).pending = false := by
-      have := k7; rcases hg.1.1 with e | e <;> simp_all [srcHold]
-    obtain ⟨hok, hcv⟩ := hwo b hp hb
+    obtain ⟨hok, hcv⟩ := hwo b hb
     constructor
     all_goals (try simp only [logpos, hcv])
     all_goals (first | assumption | ((try simp only [logpos] at *) <;> grind))
@@ -45,9 +43,10 @@ theorem DLog.src (s : Nat) (cl : Client) : ∀ a ∈ srcActs s, ∀ st, a.guard 
     all_goals (first | assumption | ((try simp only [logpos] at *) <;> grind))
   -- src.commit
   case inr.inr.inr.inr.inr.inr.inr.inr.inr.inr.inr.inr.inr.inr.inr.inr.inr.inr.inl =>
-    have hp : (cv st.sinkCh).pending = true := by have := k7; simp_all [srcHold]
+    have hsh : srcHold st.src.pc = true := by (have := hg.1; simp_all [srcHold])
+    have hp : (cv st.sinkCh).pending = true := k7 hsh
     obtain ⟨hok, hcv⟩ := hcm hp
-    have hw := k8 hp
+    have hw := k8 hsh
     have ht : (step st.sinkCh Op.wcommit).1.total = (cv (step st.sinkCh Op.wcommit).1).total := rfl
     rcases addFrame_cases st.sinkFrames st.sinkCh.total (step st.sinkCh Op.wcommit).1.total st.src.cur with e | ⟨hlt, fr, e⟩
     · constructor
